@@ -655,6 +655,12 @@ func (l *loopState) countStates() (counters stateCounters) {
 }
 
 func (l *loopState) checkForDeadlocks(retries int, wg *sync.WaitGroup) {
+	if l.context.Err() != nil {
+		// The workflow is being terminated already. Every step that is closed now completes a stage, and
+		// reporting "no more steps" for each of them fills the error channel that nobody reads anymore:
+		// the report would block with the lock held while the termination waits for this very goroutine.
+		return
+	}
 	// Here we make sure we don't have a deadlock.
 	counters := l.countStates()
 	hasReadyNodes := l.dag.HasReadyNodes()
